@@ -42,6 +42,9 @@ type Session struct {
 	// (replay of a TLC-generated interleaving); all requests must then be in
 	// one step.
 	Sched []SchedOp `json:"sched,omitempty"`
+	// WaitMs is how long a parked request waits for the operation scheduled
+	// before it (default 5000; the retry of a timed-out schedule uses 10x).
+	WaitMs int `json:"wait_ms,omitempty"`
 	// results
 	Lines   [][]byte `json:"-"`
 	LinesS  []string `json:"lines,omitempty"` // Lines, for transport between processes
@@ -232,7 +235,11 @@ func (s *Session) Run(es *ES) {
 	cache := NewCache(newInnerCache(s.Cfg))
 	var sch *scheduler
 	if s.Sched != nil {
-		sch = &scheduler{ops: s.Sched, cond: sync.NewCond(&sync.Mutex{}), wait: 5 * time.Second}
+		wait := 5 * time.Second
+		if s.WaitMs > 0 {
+			wait = time.Duration(s.WaitMs) * time.Millisecond
+		}
+		sch = &scheduler{ops: s.Sched, cond: sync.NewCond(&sync.Mutex{}), wait: wait}
 		cache.Gate = sch.gate
 	}
 	srv := newServer(es, s.Cfg, cache)
@@ -299,13 +306,13 @@ func (s *Session) Run(es *ES) {
 // an expected operation that never arrives, is a divergence (recorded, and
 // everybody is released so the session ends).
 type scheduler struct {
-	ops   []SchedOp
-	pos   int
-	cond  *sync.Cond
-	div   string
-	free  bool
-	done  map[int]bool
-	wait  time.Duration
+	ops  []SchedOp
+	pos  int
+	cond *sync.Cond
+	div  string
+	free bool
+	done map[int]bool
+	wait time.Duration
 }
 
 func (s *scheduler) nextFor(r int) (int, bool) {
